@@ -144,12 +144,12 @@ func (vr *VerifiableReader) Cache(opts ...CacheOption) (err error) {
 	eg.Go(func() error {
 		return vr.cacheWithReader(egCtx,
 			0, eg, semaphore.NewWeighted(int64(runtime.GOMAXPROCS(0))),
-			rootID, r, filter, cacheOpts.cacheOpts...)
+			rootID, map[uint32]struct{}{rootID: {}}, r, filter, cacheOpts.cacheOpts...)
 	})
 	return eg.Wait()
 }
 
-func (vr *VerifiableReader) cacheWithReader(ctx context.Context, currentDepth int, eg *errgroup.Group, sem *semaphore.Weighted, dirID uint32, r metadata.Reader, filter func(int64) bool, opts ...cache.Option) (rErr error) {
+func (vr *VerifiableReader) cacheWithReader(ctx context.Context, currentDepth int, eg *errgroup.Group, sem *semaphore.Weighted, dirID uint32, visited map[uint32]struct{}, r metadata.Reader, filter func(int64) bool, opts ...cache.Option) (rErr error) {
 	if currentDepth > maxWalkDepth {
 		return fmt.Errorf("tree is too deep (depth:%d)", currentDepth)
 	}
@@ -169,7 +169,14 @@ func (vr *VerifiableReader) cacheWithReader(ctx context.Context, currentDepth in
 				return true
 			}
 
-			if err := vr.cacheWithReader(ctx, currentDepth+1, eg, sem, id, r, filter, opts...); err != nil {
+			// A directory can be reachable through several names (hardlinks), even through its own
+			// descendants. Walk each directory only once.
+			if _, ok := visited[id]; ok {
+				return true
+			}
+			visited[id] = struct{}{}
+
+			if err := vr.cacheWithReader(ctx, currentDepth+1, eg, sem, id, visited, r, filter, opts...); err != nil {
 				rErr = err
 				return false
 			}
